@@ -1242,7 +1242,7 @@ KEYS = {
     # C02/C10: block overrun within the documented limits, on a list with a plain/fixed
     # parameter after its last VaryingSize parameter (needed-memory under-estimate)
     "needed-tail-after-varying": lambda prop, v: list_has_tail_after_varying(v["L"]) and v["kind"] in ("oracle", "correspondence") and
-        any(("GUARD" in x or "outside the" in x or "exceeds memory_consumption" in x) for x in (v.get("oracle") or []) + [v["detail"]]),
+        any(("GUARD" in x or "outside the" in x or "element-outside-block" in x or "exceeds memory_consumption" in x) for x in (v.get("oracle") or []) + [v["detail"]]),
 }
 
 
